@@ -17,6 +17,8 @@ class Spec:
         self.label = label
         self.actions: List[str] = []
         self.guards: List[str] = []
+        #: names the logic deliberately does NOT implement (abort faults)
+        self.missing: List[str] = []
         collect_names(config, self.actions, self.guards)
 
 
@@ -124,7 +126,13 @@ def random_tree(rng: random.Random, root_id: str, n_states: int, *, p_parallel=0
             kind = "parallel" if rng.random() < p_parallel else "compound"
         else:
             kind = "atomic"
-        nodes.append(par.add(Node(next(names), kind)))
+        key = next(names)
+        if par.kids and rng.random() < 0.3:
+            # sibling keys that are textual prefixes of one another (door / doorbell)
+            cand = rng.choice(par.kids).key + key
+            if all(k.key != cand for k in par.kids):
+                key = cand
+        nodes.append(par.add(Node(key, kind)))
     # fix up: containers need children; decorate leaves
     for n in list(nodes):
         if n.kind in ("compound", "parallel") and not n.kids:
@@ -333,8 +341,9 @@ def family_D(seed: int, count: int, *, density=0.35) -> List[Spec]:
             return r
 
         if ak == "parallel":
+            rkeys = rng.choice([["r1", "r2", "r3"], ["r1", "r10", "r2"]])
             for j in range(rng.randint(2, 3)):
-                a.add(region("r" + str(j + 1), 1))
+                a.add(region(rkeys[j], 1))
             if rng.random() < 0.3:
                 h = a.add(Node("h", "history"))
                 h.hkind = rng.choice(["shallow", "deep"])
@@ -386,6 +395,8 @@ GUARD_POOL: List[Any] = [
     {"type": "and", "children": ["g1", "g2"]},
     {"type": "or", "params": {"guards": ["g1", "g2"]}},
     {"type": "not", "params": {"guard": "g1"}},
+    {"type": "gp", "params": {"k": "a"}}, {"type": "gp", "params": {"k": "b"}},
+    {"type": "and", "children": [{"type": "gp", "params": {"k": "a"}}, "g2"]},
 ]
 
 
@@ -405,8 +416,10 @@ def family_S(seed: int, count: int, *, big=False) -> List[Spec]:
         if use_par:
             par = cur.add(Node("p", "parallel"))
             cur.initial = "p"
+            # region keys that are textual prefixes of one another (r1 / r10) half of the time
+            rkeys = rng.choice([["r1", "r2", "r3"], ["r1", "r10", "r2"]])
             for j in range(rng.randint(2, 3)):
-                r = par.add(Node("r" + str(j + 1), "compound"))
+                r = par.add(Node(rkeys[j], "compound"))
                 for k2 in range(2 if not big else 3):
                     leaves.append(r.add(Node(f"l{j + 1}{k2 + 1}", "atomic")))
                 r.initial = r.kids[0].key
@@ -465,4 +478,67 @@ def family_S(seed: int, count: int, *, big=False) -> List[Spec]:
                 find(cfg, lf.path)["always"] = {"target": "#" + ".".join(rng.choice(sibs).path), "guard": "g2",
                                                 "actions": [f"tr:always:{tcount}"]}
         out.append(Spec(cfg, "S", f"S-{seed}-{i}"))
+    return out
+
+
+# ---------------------------------------------------------------------------------------
+# Family F: machines whose logic leaves some actions unimplemented (aborting errors)
+
+def _initial_path_ids(cfg: Config) -> set:
+    """State ids entered by start() (default descent from the root)."""
+    out = set()
+
+    def go(node: Config, nid: str) -> None:
+        out.add(nid)
+        st = node.get("states") or {}
+        if node.get("type") == "parallel":
+            for k, c in st.items():
+                if c.get("type") != "history":
+                    go(c, nid + "." + k)
+        elif st and node.get("initial") in st:
+            go(st[node["initial"]], nid + "." + node["initial"])
+
+    go(cfg, cfg["id"])
+    return out
+
+
+def _default_children_ids(cfg: Config) -> set:
+    """Ids of states that are the initial child of a compound state or a region of a parallel state."""
+    out = set()
+
+    def go(node: Config, nid: str) -> None:
+        st = node.get("states") or {}
+        for k, c in st.items():
+            cid = nid + "." + k
+            if node.get("type") == "parallel":
+                if c.get("type") != "history":
+                    out.add(cid)
+            elif node.get("initial") == k:
+                out.add(cid)
+            go(c, cid)
+
+    go(cfg, cfg["id"])
+    return out
+
+
+def family_F(seed: int, count: int, *, min_states=4, max_states=7) -> List[Spec]:
+    """T machines in which 1-2 marker actions (entry/exit/transition) have no implementation.
+    create_machine() and start() accept them: the missing entry actions are kept off the initial
+    path, and are biased towards states reached by DEFAULT DESCENT (initial children, regions),
+    which is where a half-entered target has to be rolled back."""
+    rng = random.Random(seed)
+    out = []
+    base = family_T_random(seed, count, min_states=min_states, max_states=max_states, density=0.7)
+    for i, sp in enumerate(base):
+        init_ids = _initial_path_ids(sp.config)
+        dflt = _default_children_ids(sp.config)
+        en_default = [a for a in sp.actions if a.startswith("en:") and a[3:] in dflt and a[3:] not in init_ids]
+        en_other = [a for a in sp.actions if a.startswith("en:") and a[3:] not in init_ids and a not in en_default]
+        ex = [a for a in sp.actions if a.startswith("ex:")]
+        tr = [a for a in sp.actions if a.startswith("tr:")]
+        pools = [p for p in (en_default, en_default, en_other, ex, tr) if p]
+        sp.missing = sorted({rng.choice(rng.choice(pools)) for _ in range(rng.choice([1, 2]))})
+        sp.family = "F"
+        sp.label = f"F-{seed}-{i}"
+        out.append(sp)
     return out
